@@ -50,6 +50,13 @@ def overlay_names(lang, locale):
     return [(w, k, v) for w, k, v in names_of(lang, locale) if w not in base]
 
 
+def overlay_accent_twins(lang, locale):
+    """names the overlay ADDS whose accent-stripped form equals that of a word the locale inherits: whatever merges the
+    overlay must keep both spellings (they differ to a reader, and with NORMALIZE off to the library)"""
+    base = {_strip(w) for w in C.meanings(C.combined_info(lang))}
+    return [(w, k, v) for w, k, v in overlay_names(lang, locale) if _strip(w) in base]
+
+
 def h_month(lang, locale, name, month, width, normalize=True):
     def fn():
         v = {"d": C.field("d", 1, 9 if width == 1 else 28), "Y": C.field("Y", 1000, 9999)}
@@ -152,10 +159,14 @@ def tasks(tier, seed):
     quick = tier == "quick"
     order, locd = C.languages_index()
     known = _known_pairs()
+    tags = set()
 
     def add(lang, locale, w, kind, val, normalize=True):
         code = locale or lang
         tag = "%s:%s:%s%s" % (code, kind, w, "" if normalize else ":nonorm")
+        if tag in tags:
+            return
+        tags.add(tag)
         if kind == "month":
             widths = [2] if quick and (code, w) not in known else [1, 2]
             for wd_ in widths:
@@ -180,6 +191,8 @@ def tasks(tier, seed):
             for w, kind, val in overlay_names(lang, loc):
                 add(lang, loc, w, kind, val)
                 visited.add((loc, w))
+                if not quick:
+                    add(lang, loc, w, kind, val, normalize=False)
     if quick:
         # in every run: the names where normalisation has to arbitrate between two vocabulary words
         for lang in order:
@@ -202,6 +215,15 @@ def tasks(tier, seed):
                 if always or (rot + seed) % 12 == 0:
                     add(lang, None, w, kind, val)
                     visited.add((lang, w))
+    # regional additions that are accent twins of an inherited word: with normalisation off (every run, every locale)
+    for lang in order:
+        for loc in locd.get(lang, []):
+            for w, kind, val in overlay_accent_twins(lang, loc):
+                if quick or True:
+                    add(lang, loc, w, kind, val, normalize=False)
+                    if (loc, w) not in visited:
+                        add(lang, loc, w, kind, val)
+                        visited.add((loc, w))
     for lang, loc, w, kind, val in overlay_conflicts():
         out.append({"name": "after-overlay:%s:%s:%s" % (loc, lang, w), "fn": "h_after_overlay", "budget_s": 120, "max_paths": 2000,
                     "args": {"lang": lang, "locale": loc, "name": w, "kind": kind, "val": val}})
